@@ -4,7 +4,9 @@
 // mode: strict | alo<N> (AtLeastOnce{persist_every:N})       backend: default FD unless env WALRUS_REPLAY_MMAP=1
 // ops:  A:<t>:<size>            append one entry of <size> bytes            (expects Ok)
 //       B:<t>:<s1>,<s2>,..      batch append                                (expects Ok)
-//       E:<t>:<size>            append that must FAIL (and leave no trace)
+//       E:<t>:<size>            append that must FAIL (and leave no trace); clears all injected faults afterwards
+//       F:<KIND>:<0|1>          switch an injected fault (FSYNC, CREATE, RENAME) on/off (needs LD_PRELOAD=libwalrusfault.so)
+// mode suffix "+sync" selects FsyncSchedule::SyncEach (e.g. strict+sync)
 //       R:<t>                   consuming read_next                         (must return log[pos], pos+=1, or None iff pos==len)
 //       P:<t>                   peek read_next(checkpoint=false)            (must return log[pos] or None; changes nothing)
 //       X:<t>:<budget>:<chk>    stateful batch_read_for_topic(budget, chk, None)
@@ -28,7 +30,8 @@ fn payload(topic: &str, seq: usize, size: usize) -> Vec<u8> {
 struct Topic { log: Vec<Vec<u8>>, pos: usize, resync: Option<usize> /* after an AtLeastOnce reopen: max redelivery */ }
 
 fn open(dir: &PathBuf, key: &Option<String>, mode: ReadConsistency) -> std::io::Result<Walrus> {
-    let mut b = Walrus::builder().data_dir(dir.clone()).consistency(mode).fsync_schedule(FsyncSchedule::NoFsync);
+    let sched = if std::env::var("WALRUS_REPLAY_SYNC_EACH").is_ok() { FsyncSchedule::SyncEach } else { FsyncSchedule::NoFsync };
+    let mut b = Walrus::builder().data_dir(dir.clone()).consistency(mode).fsync_schedule(sched);
     if let Some(k) = key { b = b.key(k); }
     b.build()
 }
@@ -46,7 +49,9 @@ fn esc(s: &str) -> String {
     o
 }
 
-fn run(name: &str, mode_s: &str, ops: &[&str], base: &PathBuf) -> Result<(), String> {
+fn run(name: &str, mode_full: &str, ops: &[&str], base: &PathBuf) -> Result<(), String> {
+    let mode_s = mode_full.trim_end_matches("+sync");
+    if mode_full.ends_with("+sync") { unsafe { std::env::set_var("WALRUS_REPLAY_SYNC_EACH", "1"); } } else { unsafe { std::env::remove_var("WALRUS_REPLAY_SYNC_EACH"); } }
     let mode = if mode_s == "strict" { ReadConsistency::StrictlyAtOnce } else {
         ReadConsistency::AtLeastOnce { persist_every: mode_s.trim_start_matches("alo").parse().map_err(|_| "bad mode")? } };
     let strict = mode_s == "strict";
@@ -70,10 +75,16 @@ fn run(name: &str, mode_s: &str, ops: &[&str], base: &PathBuf) -> Result<(), Str
                 if let Err(e) = w.append_for_topic(f[1], &p) { return fail(format!("append failed: {e}")); }
                 t.log.push(p);
             }
+            "F" => {
+                // fault injection through the LD_PRELOAD seam (replay/faultlib): F:<FSYNC|CREATE|RENAME>:<0|1>
+                unsafe { std::env::set_var(format!("WALRUS_FAULT_{}", f[1]), f[2]); }
+            }
             "E" => {
                 // an append that must be rejected (e.g. larger than the 1 GiB block cap); it must leave no trace
                 let p = vec![0x5au8; f[2].parse().unwrap()];
-                if w.append_for_topic(f[1], &p).is_ok() { return fail("append unexpectedly succeeded".into()); }
+                let r = w.append_for_topic(f[1], &p);
+                for v in ["FSYNC", "CREATE", "RENAME"] { unsafe { std::env::remove_var(format!("WALRUS_FAULT_{}", v)); } }
+                if r.is_ok() { return fail("append unexpectedly succeeded".into()); }
                 topics.entry(f[1].to_string()).or_default();
             }
             "B" => {
